@@ -96,7 +96,7 @@ def confirm(report):
         route = None
         if 'witness' in vio and vio['witness'] and 'instruction' in vio['witness']:
             route = confirm_op
-        elif 'spec' in vio and vio['spec'] is not None:
+        elif vio.get('spec') is not None or vio.get('spec_json') is not None:
             from . import natives
             route = natives.confirm_structure
         if route is None:
